@@ -34,11 +34,38 @@ BACKGROUND = [None, None, 'red', 'rgba(0,0,255,0.5)', 'rgba(0,0,0,0)', 'linear-g
               f'url({SVG_URI}) no-repeat, linear-gradient(red, blue)', f'url({PNG2_URI}) round']
 BORDER = [None, None, None, '2px solid green', '3px dashed rgba(0,0,0,0.5)', '2px dotted blue', '4px double red',
           '4px groove gray', '4px ridge gray', '3px inset gray', '3px outset gray', '1px solid transparent']
-COLOR = [None, None, 'blue', 'rgba(255,0,0,0.5)', 'rgba(0,0,0,0.25)', 'lab(50 20 30)', 'oklch(0.5 0.2 30 / 0.5)',
-         'hsl(120 50% 50%)', 'color(display-p3 1 0 0)', 'color(xyz-d50 0.2 0.3 0.4)']
+# Every CSS Color 4 syntax tinycss2 accepts: legacy and modern rgb(), hex, named, hsl, hwb, lab, lch, oklab, oklch,
+# color() in every predefined space, with alpha, and with `none` components (painted as 0).  `none` in a colour space
+# WeasyPrint does not support (display-p3, a98-rgb, prophoto-rgb, rec2020, srgb-linear) is the listed finding
+# none-component-unsupported-space and is left out.
+COLOURS = [
+    'blue', 'rgba(255,0,0,0.5)', 'rgba(0,0,0,0.25)', '#0f0', 'rgb(0 128 0)', 'rgb(10% 20% 30% / 50%)',
+    'rgb(none 128 0)', 'rgb(255 none none / 0.5)', 'rgb(none none none)', 'rgba(none 0 255 / 0.25)',
+    'color(srgb none 0 1)', 'color(srgb 1 none 0.5 / 0.25)', 'color(srgb 0.25 0.5 0.75)',
+    'hsl(120 50% 50%)', 'hsl(none 50% 50%)', 'hsl(200 none 50% / 0.5)', 'hwb(120 10% 20%)', 'hwb(90 none 20%)',
+    'lab(50 20 30)', 'lab(none 20 30)', 'lch(50 30 120)', 'lch(50 none 30 / 0.25)',
+    'oklab(0.5 0.1 -0.1)', 'oklab(0.5 none 0.1)', 'oklch(0.5 0.2 30 / 0.5)', 'oklch(0.5 0.2 none)',
+    'color(xyz-d50 0.2 0.3 0.4)', 'color(xyz-d50 none 0.3 0.4)', 'color(xyz 0.2 none 0.4)', 'color(xyz-d65 0.2 0.3 0.4)',
+    'color(display-p3 1 0 0)', 'color(srgb-linear 0.5 0.25 0.125)', 'color(a98-rgb 0 1 0 / 0.5)',
+    'color(prophoto-rgb 0.5 0.5 0)', 'color(rec2020 0 0 1)', 'transparent', 'currentcolor',
+]
+COLOR = [None, None] + COLOURS
+# colours `Color.to('srgb')` can convert: the only ones given to gradients and 3D border styles (anything else is the
+# listed finding colour-to-srgb-not-implemented)
+SRGB_FAMILY = [c for c in COLOURS if c.split('(')[0] in ('rgb', 'rgba', 'hsl', 'hwb', 'blue', '#0f0', 'transparent')
+               or c.startswith('color(srgb ')]
 BLOCK_TAGS = ['div', 'div', 'div', 'p', 'section', 'article', 'blockquote', 'h1', 'h3']
 INLINE_TAGS = ['span', 'span', 'em', 'a', 'b']
 WORDS = ['aa', 'bb cc', 'd', 'ee ff gg', '&#x20;', 'hh']
+
+
+def svg_uri(rng):
+    """An SVG image whose fill / stroke colours are drawn from the same colour syntaxes."""
+    fill, stroke = rng.choice(COLOURS[:-2]), rng.choice(COLOURS[:-2])
+    return 'data:image/svg+xml;base64,' + base64.b64encode((
+        f'<svg xmlns="http://www.w3.org/2000/svg" width="10" height="10"><rect width="6" height="6" fill="{fill}" '
+        f'opacity="0.5"/><circle cx="5" cy="5" r="3" fill="none" stroke="{stroke}"/>'
+        f'<text x="1" y="8" font-size="4" fill="{stroke}">s</text></svg>').encode()).decode()
 
 
 def style_for(rng, inline=False):
@@ -47,11 +74,17 @@ def style_for(rng, inline=False):
         value = rng.choice(options)
         if value is not None and rng.random() < p:
             parts.append(f'{prop}:{value}')
+    colour = lambda: rng.choice(COLOURS)  # noqa: E731
     maybe('opacity', OPACITY)
     maybe('transform', TRANSFORM)
-    maybe('background', BACKGROUND)
-    maybe('border', BORDER)
+    srgb = lambda: rng.choice(SRGB_FAMILY)  # noqa: E731
+    maybe('background', BACKGROUND + [colour(), colour(), f'linear-gradient({srgb()}, {srgb()})',
+                                      f'radial-gradient({srgb()}, {srgb()})', f'url({svg_uri(rng)}) no-repeat'])
+    maybe('border', BORDER + [f'{rng.choice(["2px solid", "3px dashed", "2px dotted", "4px double"])} {colour()}'
+                              for _ in range(3)] + [f'{rng.choice(["4px groove", "3px inset", "4px ridge"])} {srgb()}'])
     maybe('color', COLOR)
+    maybe('outline', [None, None, None, f'2px solid {colour()}'])
+    maybe('text-decoration', [None, None, None, f'underline {colour()}'])
     maybe('overflow', [None, None, 'hidden', 'hidden', 'scroll'])
     maybe('border-radius', [None, None, '3px', '50%'])
     maybe('outline', [None, None, None, '2px solid red', '1px dashed blue'])
@@ -70,7 +103,7 @@ def style_for(rng, inline=False):
         maybe('float', [None, None, None, 'left', 'right'])
         maybe('column-count', [None, None, None, None, '2'])
         if 'column-count:2' in parts:
-            parts.append('column-rule:1px solid red')
+            parts.append(f'column-rule:1px solid {colour()}')
         maybe('width', [None, None, '50px', '30px'])
         maybe('height', [None, None, None, '20px'])
         maybe('mask-border', [None] * 7 + [f'url({PNG_URI}) 1'])
